@@ -274,6 +274,7 @@ func TestC14(t *testing.T) {
 		}
 		// texts must be re-rendered after the injection
 		c.Text = gast.RulesString(c.Rules)
+		c.Texts = nil // the resources were rendered before the injection
 		for _, r := range c.Rules {
 			c.SoloTexts[r.Name] = gast.RuleString(r)
 		}
